@@ -261,6 +261,9 @@ fn undefined_matrix() -> Vec<(String, E)> {
         ("index-of-missing-variable", E::Item(bx(var("u")), bx(E::Lit(V::Int(0))), false)),
         ("optional-index-of-missing-variable", E::Item(bx(var("u")), bx(E::Lit(V::Int(0))), true)),
         ("optional-index-of-none", E::Item(bx(var("nn")), bx(E::Lit(V::Int(0))), true)),
+        // an entry that is there and holds an undefined value behaves like a missing last field
+        ("entry-holding-undefined", attr(var("mu"), "k", false)),
+        ("field-of-entry-holding-undefined", attr(attr(var("mu"), "k", false), "y", false)),
         ("present-field", attr(var("m"), "n", false)),
         ("none-variable", var("nn")),
     ];
@@ -363,6 +366,7 @@ pub fn run(cx: &mut Cx) {
         ("s".into(), V::Str("hey".into())),
         ("t".into(), V::Bool(true)),
         ("nn".into(), V::None),
+        ("mu".into(), V::Map(vec![(K::S("k".into()), V::Undef), (K::S("j".into()), V::Int(1))])),
         ("xs".into(), V::Arr(vec![V::Int(5), V::Str("x".into()), V::None, V::Arr(vec![V::Int(1)])])),
         ("m".into(), V::Map(vec![(K::S("n".into()), V::Int(7)), (K::S("s".into()), V::Str("ms".into())), (K::S("xs".into()), V::Arr(vec![V::Int(0), V::Int(1)])), (K::S("a".into()), V::Map(vec![(K::S("b".into()), V::Int(1))])), (K::S("nn".into()), V::None)])),
     ];
